@@ -157,3 +157,17 @@ META['C14'] = dict(
     technique='property-based robustness testing (rapid) of the live binary under tmux: generated option sets, window sizes, action/key/mouse/resize histories and exit moments against liveness and terminal/tmp/process hygiene predicates',
     level_text='Exploration: hundreds (quick) to thousands (thorough) of live sessions; after every step fzf must answer, at exit stty settings, private terminal modes, alternate screen, mouse modes, TMPDIR and the process table must be clean.',
     level_note='tmux 3.3a is the terminal emulator; timing of exits relative to running child commands is varied, not controlled; SIGINT is repeated because fzf leaves it to a running execute/transform command by design.')
+
+META['C15'] = dict(
+    engine='rapid-proc',
+    design_ref='DESIGN.md section 4, C15',
+    technique='property-based testing (rapid) of the live binary: the pane captured through tmux is parsed and compared with the GET state after every step of generated histories (screen-vs-state relation)',
+    level_text='Exploration: hundreds (quick) to thousands (thorough) of live sessions over lists, geometries, layouts, info styles, headers and action histories; exact comparison for printable ASCII lines.',
+    level_note='tmux capture-pane is the observation of what is drawn; ASCII pointer/marker/ellipsis and --no-hscroll/--no-scrollbar/--color=bw are configured so that rows can be parsed; header rows are located, not positioned.')
+
+META['C20'] = dict(
+    engine='rapid-proc',
+    design_ref='DESIGN.md section 4, C20',
+    technique='stateful property-based testing (rapid) of the live binary with an instrumented preview command: invocation log + process table + captured pane against the expansion for the focused line at quiescence',
+    level_text='Exploration: live sessions with instant / slow / never-ending / incremental preview commands and action histories with generated gaps and bursts; checked at quiescence points and after exit.',
+    level_note='Timing relative to process start-up is varied, not controlled; quiescence = a state that stops changing; liveness cap 40 s.')
